@@ -6,6 +6,8 @@ pub mod alloc;
 pub mod cbor;
 pub mod conv;
 pub mod registry;
+pub mod model;
+pub mod gen;
 pub mod tape;
 pub mod props;
 
